@@ -15,6 +15,18 @@
 (*   Filter idx ret               ret = <<elements>> or <<>> (reported)    *)
 (*   AddFirst AddLast PutBefore Remove RemoveFirst RemoveLast Clear Walk   *)
 (*                                (LinkedList; positions 0-based)          *)
+(*   a call that hands something out / is handed something may carry       *)
+(*   keep = h: the caller retains that thing in slot h (ToArray: the array *)
+(*   returned; Sort: the index slice; Filter: the list returned; Write:    *)
+(*   the list read back; AddAll / AddAllArray: the argument list / array)  *)
+(*   Held    h arr                the retained thing h, read again         *)
+(*   HeldSet h i v                the caller wrote arr[i] = v / Set(i, v)  *)
+(*                                into the retained array / list h         *)
+(*   HeldAdd h v                  the caller called Add(v) on retained     *)
+(*                                list h                                   *)
+(*   Swap    h                    retained list h becomes the list the     *)
+(*                                calls go to, the list becomes retained h *)
+(*   every event may carry held = ALL retained things, read after the call *)
 (*   every event: size = Size() after the call; LinkedList events also     *)
 (*   first / last = value of GetFirst() / GetLast() as a result tuple      *)
 (*                                                                         *)
@@ -33,35 +45,39 @@ e == Trace[l]
 \* observations taken after every call
 Obs == /\ Has(e, "size") /\ e.size = Len(xs')
        /\ Has(e, "all") => e.all = xs'          \* the complete contents (graph replay)
+       /\ Has(e, "held") => e.held = held'      \* every retained thing, read again
        /\ T' = "Linked" => /\ Has(e, "first") /\ Has(e, "last")
                            /\ e.first = (IF xs' = <<>> THEN <<>> ELSE <<xs'[1]>>)
                            /\ e.last = (IF xs' = <<>> THEN <<>> ELSE <<xs'[Len(xs')]>>)
 
 TraceReset == /\ Step("Reset")
               /\ Has(e, "t") /\ e.t \in TypedKinds \cup {"Linked"}
-              /\ xs' = <<>> /\ T' = e.t
+              /\ xs' = <<>> /\ T' = e.t /\ held' = <<>>
               /\ Obs
 
 Typed  == T \in TypedKinds
 Linked == T = "Linked"
 
-TraceAdd == /\ Step("Add") /\ Has(e, "v") /\ Add(e.v) /\ Obs
+\* the caller retains the thing this call returned / was given (value s) in slot e.keep
+Keep(s) == IF Has(e, "keep") THEN KeepAt(e.keep, s) ELSE NoKeep
+
+TraceAdd == /\ Step("Add") /\ Has(e, "v") /\ Add(e.v) /\ NoKeep /\ Obs
             /\ Has(e, "ret") => e.ret = TRUE          \* LinkedList.Add answers true
 TraceAddAll == /\ Step("AddAll") /\ Typed /\ Has(e, "vs") /\ Has(e, "self")
-               /\ e.self => e.vs = xs                  \* list.AddAll(list)
-               /\ AddAll(e.vs) /\ Obs
-TraceAddAllArray == Step("AddAllArray") /\ Typed /\ Has(e, "vs") /\ AddAll(e.vs) /\ Obs
+               /\ e.self => (e.vs = xs /\ ~Has(e, "keep"))     \* list.AddAll(list)
+               /\ AddAll(e.vs) /\ Keep(e.vs) /\ Obs
+TraceAddAllArray == Step("AddAllArray") /\ Typed /\ Has(e, "vs") /\ AddAll(e.vs) /\ Keep(e.vs) /\ Obs
 TraceSet == /\ Step("Set") /\ Typed /\ Has(e, "i") /\ Has(e, "v") /\ Has(e, "fail")
-            /\ Set(e.i, e.v) /\ e.fail = SetFails(e.i) /\ Obs
+            /\ Set(e.i, e.v) /\ e.fail = SetFails(e.i) /\ NoKeep /\ Obs
 TraceGet == /\ Step("Get") /\ Typed /\ Has(e, "i") /\ Has(e, "ret")
             /\ e.ret = GetRes(e.i) /\ UNCHANGED vars /\ Obs
-TraceToArray == Step("ToArray") /\ Has(e, "arr") /\ e.arr = xs /\ UNCHANGED vars /\ Obs
+TraceToArray == Step("ToArray") /\ Has(e, "arr") /\ e.arr = xs /\ UNCHANGED lvars /\ Keep(xs) /\ Obs
 TraceProj == Step("Proj") /\ Has(e, "arr") /\ e.arr = xs /\ UNCHANGED vars /\ Obs
 TraceSize == Step("Size") /\ Has(e, "n") /\ e.n = Len(xs) /\ UNCHANGED vars /\ Obs
 \* the bytes Write produced are the wire form; a fresh list that Read them holds xs
 TraceWrite == /\ Step("Write") /\ Typed /\ Has(e, "bytes") /\ Has(e, "back")
               /\ e.bytes = Wire(T, xs) /\ e.back = xs
-              /\ UNCHANGED vars /\ Obs
+              /\ UNCHANGED lvars /\ Keep(xs) /\ Obs
 
 \* sorting: the logged ranks are bound to the stored elements (and the child's
 \* to the child list) by the order of the element type, then the relation decides
@@ -75,27 +91,39 @@ TraceSort ==
           /\ RanksOK(e.ct, e.carr, e.crk, e.cdist)
           /\ IsOrderingPermutation(e.perm, e.rk, e.crk, e.asc, e.casc)
      ELSE IsOrderingPermutation(e.perm, e.rk, NoChild(Len(xs)), e.asc, TRUE)
-  /\ UNCHANGED vars /\ Obs
+  /\ UNCHANGED lvars /\ Keep(e.perm) /\ Obs
 
 TraceFilter == /\ Step("Filter") /\ Typed /\ Has(e, "idx") /\ Has(e, "ret")
                /\ e.ret = FilterRes(e.idx)
                /\ e.ret # <<>> => (Has(e, "osize") /\ e.osize = Len(e.idx))    \* Size() of the returned list
-               /\ UNCHANGED vars /\ Obs
+               /\ UNCHANGED lvars
+               /\ IF FilterOK(e.idx) THEN Keep(Filtering(e.idx)) ELSE (~Has(e, "keep") /\ NoKeep)
+               /\ Obs
+
+\* ---- retained things --------------------------------------------------------
+TraceHeld == /\ Step("Held") /\ Has(e, "h") /\ Has(e, "arr")
+             /\ IsHeld(e.h) /\ e.arr = held[e.h]
+             /\ UNCHANGED vars /\ Obs
+TraceHeldSet == /\ Step("HeldSet") /\ Has(e, "h") /\ Has(e, "i") /\ Has(e, "v")
+                /\ HeldWrite(e.h, e.i, e.v) /\ Obs
+TraceHeldAdd == /\ Step("HeldAdd") /\ Typed /\ Has(e, "h") /\ Has(e, "v")
+                /\ HeldAppend(e.h, e.v) /\ Obs
+TraceSwap == Step("Swap") /\ Typed /\ Has(e, "h") /\ SwapHeld(e.h) /\ Obs
 
 \* ---- LinkedList ------------------------------------------------------------
-TraceAddFirst == Step("AddFirst") /\ Linked /\ Has(e, "v") /\ AddFirst(e.v) /\ Obs
-TraceAddLast == Step("AddLast") /\ Linked /\ Has(e, "v") /\ AddLast(e.v) /\ Obs
+TraceAddFirst == Step("AddFirst") /\ Linked /\ Has(e, "v") /\ AddFirst(e.v) /\ NoKeep /\ Obs
+TraceAddLast == Step("AddLast") /\ Linked /\ Has(e, "v") /\ AddLast(e.v) /\ NoKeep /\ Obs
 \* the successor node was reached by e.p GetNext hops from GetFirst; the call
 \* answers the new node, whose value (e.nv) and successor value (e.sv) are logged
 TracePutBefore == /\ Step("PutBefore") /\ Linked /\ Has(e, "v") /\ Has(e, "p") /\ Has(e, "nv") /\ Has(e, "sv")
                   /\ InRange(e.p) /\ e.nv = <<e.v>> /\ e.sv = <<At(e.p)>>
-                  /\ PutBefore(e.v, e.p) /\ Obs
+                  /\ PutBefore(e.v, e.p) /\ NoKeep /\ Obs
 TraceRemove == /\ Step("Remove") /\ Linked /\ Has(e, "p") /\ Has(e, "ret")
                /\ InRange(e.p) /\ e.ret = <<At(e.p)>>
-               /\ Remove(e.p) /\ Obs
-TraceRemoveFirst == Step("RemoveFirst") /\ Linked /\ Has(e, "ret") /\ e.ret = FirstRes /\ RemoveFirst /\ Obs
-TraceRemoveLast == Step("RemoveLast") /\ Linked /\ Has(e, "ret") /\ e.ret = LastRes /\ RemoveLast /\ Obs
-TraceClear == Step("Clear") /\ Linked /\ Clear /\ Obs
+               /\ Remove(e.p) /\ NoKeep /\ Obs
+TraceRemoveFirst == Step("RemoveFirst") /\ Linked /\ Has(e, "ret") /\ e.ret = FirstRes /\ RemoveFirst /\ NoKeep /\ Obs
+TraceRemoveLast == Step("RemoveLast") /\ Linked /\ Has(e, "ret") /\ e.ret = LastRes /\ RemoveLast /\ NoKeep /\ Obs
+TraceClear == Step("Clear") /\ Linked /\ Clear /\ NoKeep /\ Obs
 \* GetFirst, then GetNext until nil: the values met
 TraceWalk == Step("Walk") /\ Linked /\ Has(e, "arr") /\ e.arr = xs /\ UNCHANGED vars /\ Obs
 
@@ -104,7 +132,8 @@ TraceNext ==
     \/ TraceAdd \/ TraceAddAll \/ TraceAddAllArray \/ TraceSet \/ TraceGet
     \/ TraceToArray \/ TraceProj \/ TraceSize \/ TraceWrite \/ TraceSort \/ TraceFilter
     \/ TraceAddFirst \/ TraceAddLast \/ TracePutBefore \/ TraceRemove
-    \/ TraceRemoveFirst \/ TraceRemoveLast \/ TraceClear \/ TraceWalk )
+    \/ TraceRemoveFirst \/ TraceRemoveLast \/ TraceClear \/ TraceWalk
+    \/ TraceHeld \/ TraceHeldSet \/ TraceHeldAdd \/ TraceSwap )
   /\ InvAll'
 
 TraceSpec == TraceInit /\ [][TraceNext]_tvars
